@@ -126,8 +126,26 @@ pub fn gen_program(d: &mut Dec, thorough: bool) -> Case {
     }
     .with_lookaheads(40)
     .with_modes(2);
+    let mut modes = gen::gen_modes(d, &p);
+    if d.chance(3) {
+        // many patterns / more than 64 registered classes
+        let mi = d.below(modes.len());
+        modes[mi] = gen::gen_large_mode(d, &p, gen::MODE_NAMES[mi]);
+    } else if d.chance(8) {
+        // larger repetition counts around powers of two
+        let mi = d.below(modes.len());
+        let pi = d.below(modes[mi].pats.len());
+        let n = *d.pick(&[15u32, 16, 17, 31, 33, 63, 64, 65, 127, 129]);
+        let inner = crate::rx::Rx::Lit(gen::gen_char(d), crate::rx::LitForm::Verbatim);
+        let rep = match d.below(3) {
+            0 => crate::rx::Rx::Repeat(Box::new(inner), n, Some(n)),
+            1 => crate::rx::Rx::Repeat(Box::new(inner), n, None),
+            _ => crate::rx::Rx::Repeat(Box::new(inner), n - 2, Some(n)),
+        };
+        modes[mi].pats[pi].rx = crate::rx::Rx::Concat(vec![modes[mi].pats[pi].rx.clone(), rep]);
+    }
     Case {
-        modes: gen::gen_modes(d, &p),
+        modes,
         ..Case::default()
     }
 }
@@ -145,6 +163,7 @@ fn program_features(case: &Case, st: &mut CaseStats) {
     );
     st.flag("lookahead", pats.iter().any(|p| p.la.is_some()));
     st.flag("corpus_program", case.extra.get("corpus").is_some());
+    st.flag("more_than_64_patterns_in_a_mode", case.modes.iter().any(|m| m.pats.len() > 64));
 }
 
 pub struct C02;
